@@ -406,15 +406,24 @@ def sm_check(work, v, prop, tier, tables, traces, fields, design_props, note, fr
         cc.update(c)
         sm_table_stage(work, v, findings, prop, harness, name, cc, fields, acc)
     for name, t in traces:
-        sm_trace_stage(work, v, findings, prop, harness, name, t, fields, acc)
+        # thorough: five independent chunks per trace stage (keeps each TLC input below ~300 MB)
+        for k in range(1 if tier == "quick" else 5):
+            sm_trace_stage(work, v, findings, prop, harness, "%s%d" % (name, k), dict(t, salt=t.get("salt", 0) + 100 * k), fields, acc)
     for name, t in ctraces:
-        cond_trace_stage(work, v, findings, prop, harness, name, t, t.get("fields", COND_FIELDS), acc)
+        for k in range(1 if tier == "quick" else 5):
+            cond_trace_stage(work, v, findings, prop, harness, "%s%d" % (name, k), dict(t, salt=t.get("salt", 0) + 100 * k), t.get("fields", COND_FIELDS), acc)
     for fr in frames:
         frame_stage(work, v, findings, prop, harness, acc=acc, **fr)
     for gs in gens:
         gen_cases_stage(work, v, findings, prop, harness, acc, **gs)
     for rs in rands:
-        check_cases_stage(work, v, findings, prop, harness, acc, **rs)
+        # large thorough runs are split into chunks (one TLC validation per chunk)
+        n, k = rs["n"], 0
+        while n > 0:
+            part = dict(rs, n=min(n, 50000), salt=rs.get("salt", 0) + 1000 * k)
+            check_cases_stage(work, v, findings, prop, harness, acc, **part)
+            n -= part["n"]
+            k += 1
     v.cov = dict(
         states=acc["states"], transitions=acc["transitions"],
         traces_validated_against_impl=acc["traces"],
@@ -499,9 +508,9 @@ C08_FIELDS = [f for f in ALL_FIELDS if f != "cannest"]
 def c08(work, v, tier):
     q = tier == "quick"
     tables = [("idx", dict(Caps=[0, 3], InitOpts=IDX4, MaxLen=3 if q else 4, IdxMode="all", Fams=["list", "query"],
-                           depth=2 if q else 2, walks=300 if q else 3000, wlen=40)),
+                           depth=2 if q else 2, walks=300 if q else 20000, wlen=40)),
               ("idxmtx", dict(Caps=[0, 2], InitOpts=[[], ["neg", "fwd"]], InitMtx=[True], Vals=["nil", "a"], MaxLen=2 if q else 3, IdxMode="all",
-                              Fams=["list", "query"], PushLens=[1], depth=2, walks=200 if q else 2000, wlen=40)),
+                              Fams=["list", "query"], PushLens=[1], depth=2, walks=200 if q else 10000, wlen=40)),
               ("idxkinds", dict(Caps=[0], Kinds=["OR", "NOT", "LIST", "BASIC"], InitOpts=[[], ["neg", "fwd"]], Vals=["nil", "a"],
                                 MaxLen=2 if q else 4, IdxMode="all", Fams=["list", "query"], PushLens=[1], depth=2, walks=100))]
     traces = [("rand", dict(traces=150 if q else 2000, len=60, fams=["list", "idxopts", "query"], mode="all"))]
@@ -530,15 +539,15 @@ def c09(work, v, tier):
     q = tier == "quick"
     tables = [("ro-list", dict(Caps=[0, 2], InitOpts=[["ronly"]], Vals=["nil", "a"], MaxLen=2 if q else 3, IdxMode="all",
                                Fams=["list", "query", "marshal", "opts"], OptFlags=["ronly"], PushLens=[1],
-                               depth=2, walks=200 if q else 2000, wlen=30)),
+                               depth=2, walks=200 if q else 10000, wlen=30)),
               ("ro-defrag", dict(Caps=[0], InitOpts=[["ronly"]], Vals=["nil", "a"], MaxLen=2, Fams=["defrag", "marshal"], depth=2, walks=20, wlen=10)),
-              ("ro-cfg", dict(InitOpts=[["ronly"]], MaxLen=0, Fams=["opts", "life"], OptFlags=ALLFL, depth=2 if q else 3, walks=200 if q else 2000, wlen=30)),
+              ("ro-cfg", dict(InitOpts=[["ronly"]], MaxLen=0, Fams=["opts", "life"], OptFlags=ALLFL, depth=2 if q else 3, walks=200 if q else 10000, wlen=30)),
               ("ro-set", dict(Kinds=["AND", "LIST"], InitOpts=[["ronly"]], MaxLen=1, Vals=["a"], PushLens=[1],
-                              Fams=["settings", "policy", "opts"], OptFlags=["ronly"], depth=2, walks=200 if q else 2000, wlen=30))]
+                              Fams=["settings", "policy", "opts"], OptFlags=["ronly"], depth=2, walks=200 if q else 10000, wlen=30))]
     tables.append(("cond-ro", dict(machine="cond", KwArgs=["k", "nil"], OpArgs=["Eq", "user", "nil"], ExArgs=["nil", "s:v", "S"],
-                                   CFams=["set", "opts", "life", "closures"], COptFlags=["ronly"], depth=2, walks=300 if q else 3000)))
+                                   CFams=["set", "opts", "life", "closures"], COptFlags=["ronly"], depth=2, walks=300 if q else 20000)))
     tables.append(("cond-ro-set", dict(machine="cond", KwArgs=["k"], OpArgs=["Eq"], ExArgs=["s:v"],
-                                       CFams=["settings", "opts"], COptFlags=["ronly", "paren"], depth=2, walks=200 if q else 2000)))
+                                       CFams=["settings", "opts"], COptFlags=["ronly", "paren"], depth=2, walks=200 if q else 10000)))
     traces = [("rand", dict(traces=150 if q else 1500, len=80, fams=["list", "opts", "policy", "life", "settings", "marshal"], mode="all"))]
     return sm_check(work, v, "C09", tier, tables, traces, ALL_FIELDS,
                     ["StepProps: ReadOnlyFrame over the whole action alphabet (only SetReadOnly / SetErr change a read-only state; Free returns an error)"],
@@ -551,12 +560,12 @@ def c17(work, v, tier):
     q = tier == "quick"
     tables = [("life-list", dict(Caps=[0, 2], Kinds=["AND", "BASIC"], Vals=["nil", "a"], MaxLen=2 if q else 3, IdxMode="all",
                                  Fams=["list", "life", "marshal", "query"], PushLens=[1, 2],
-                                 depth=2, walks=300 if q else 3000, wlen=30)),
+                                 depth=2, walks=300 if q else 20000, wlen=30)),
               ("life-cfg", dict(MaxLen=0, Fams=["opts", "life"], OptFlags=ALLFL, depth=2, walks=100 if q else 1000, wlen=30)),
               ("life-set", dict(Kinds=["AND", "LIST"], MaxLen=1, Vals=["a"], PushLens=[1], Fams=["settings", "policy", "life"],
                                 depth=2, walks=100 if q else 1000, wlen=30))]
     tables.append(("cond-life", dict(machine="cond", KwArgs=["k", "nil"], OpArgs=["Eq", "nil"], ExArgs=["nil", "s:v", "S"],
-                                     CFams=["set", "cond", "opts", "life", "settings"], COptFlags=["ronly"], depth=2, walks=300 if q else 3000)))
+                                     CFams=["set", "cond", "opts", "life", "settings"], COptFlags=["ronly"], depth=2, walks=300 if q else 20000)))
     traces = [("rand", dict(traces=200 if q else 2000, len=60, fams=["list", "opts", "life", "settings", "marshal", "query"], mode="all"))]
     return sm_check(work, v, "C17", tier, tables, traces, ALL_FIELDS,
                     ["StepProps: Inert (a dead handle stays dead, every call returns its zero result, only Marshal initialises)",
@@ -577,9 +586,9 @@ def c13(work, v, tier):
     vals = ["nil", "a", "S", "A", "P", "C"]
     tables = [("nest", dict(Caps=[0, 2], Kinds=["AND", "OR", "NOT", "LIST", "BASIC"] if not q else ["AND", "LIST", "BASIC"], Vals=vals,
                             MaxLen=2 if q else 3, InitOpts=[[], ["nnest"]], Fams=["grow", "opts"], OptFlags=["nnest"],
-                            PushLens=[1, 2], depth=2, walks=300 if q else 3000, wlen=40))]
+                            PushLens=[1, 2], depth=2, walks=300 if q else 20000, wlen=40))]
     tables.append(("cond-nn", dict(machine="cond", KwArgs=["k"], OpArgs=["Eq"], ExArgs=["nil", "s:v", "S", "A", "P", "C"],
-                                   CFams=["set", "opts", "life"], COptFlags=["nnest", "ronly"], depth=3, walks=300 if q else 3000)))
+                                   CFams=["set", "opts", "life"], COptFlags=["nnest", "ronly"], depth=3, walks=300 if q else 20000)))
     traces = [("rand", dict(traces=200 if q else 2000, len=60, fams=["list", "opts"], nest=True, nvals=6))]
     return sm_check(work, v, "C13", tier, tables, traces, C13_FIELDS,
                     ["StepProps: NoNestPush (with no-nesting on, Push keeps exactly the non-Stack values, in order)",
@@ -598,11 +607,11 @@ C14_FIELDS = ["init", "len", "elems", "err", "integ", "valid", "strsrc", "eqsrc"
 def c14(work, v, tier):
     q = tier == "quick"
     tables = [("policy", dict(Caps=[0, 1, 2], Vals=["nil", "a", "b"], MaxLen=3, Fams=["grow", "policy", "err"], PushLens=[1, 2, 3],
-                              depth=2, walks=300 if q else 3000, wlen=40))]
+                              depth=2, walks=300 if q else 20000, wlen=40))]
     tables.append(("closures", dict(Caps=[0], Kinds=["AND", "OR", "NOT", "LIST", "BASIC"], Vals=["a"], MaxLen=1, PushLens=[1], InitOpts=[[], ["paren"]],
-                                    Fams=["closures", "grow", "marshal"], depth=2, walks=300 if q else 3000, wlen=40)))
+                                    Fams=["closures", "grow", "marshal"], depth=2, walks=300 if q else 20000, wlen=40)))
     tables.append(("cond-closures", dict(machine="cond", KwArgs=["k", ""], OpArgs=["Eq", "nil"], ExArgs=["nil", "s:v", "S"],
-                                         CFams=["set", "closures", "life"], COptFlags=[], depth=2, walks=200 if q else 2000)))
+                                         CFams=["set", "closures", "life"], COptFlags=[], depth=2, walks=200 if q else 10000)))
     traces = [("rand", dict(traces=200 if q else 2000, len=60, fams=["list", "policy", "life"], nvals=5, caps="0,1,2,3,5")),
               ("closures", dict(traces=200 if q else 2000, len=60, fams=["list", "closures", "marshal", "opts"], nvals=4, salt=3))]
     return sm_check(work, v, "C14", tier, tables, traces, C14_FIELDS,
@@ -625,7 +634,7 @@ def c15(work, v, tier):
     q = tier == "quick"
     tables = [("xfer", dict(Caps=[0], Vals=["nil", "a"], MaxLen=3 if q else 4, Fams=["grow", "transfer"], PushLens=[1, 2],
                             DstCaps=[0, 1, 2, 3] if q else [0, 1, 2, 3, 4, 5], DstOps=["push", "pop", "ronly"], depth=2,
-                            walks=300 if q else 3000, wlen=40)),
+                            walks=300 if q else 20000, wlen=40)),
               ("xfer-nn", dict(Caps=[0], Vals=["a", "S"], MaxLen=2, Fams=["grow", "transfer"], PushLens=[1],
                                DstCaps=[0, 2], DstOps=["push", "nnest"], depth=2, walks=100, wlen=30))]
     traces = [("rand", dict(traces=200 if q else 2000, len=60, fams=["list", "transfer"], caps="0,1,2,3,5,8", nest=True, nvals=6))]
@@ -644,15 +653,15 @@ C18_FIELDS = ["init", "bits", "ronly", "paren", "padded", "cannest", "fifo", "id
 def c18(work, v, tier):
     q = tier == "quick"
     tables = [("flags", dict(Kinds=["AND"], MaxLen=1, Vals=["a"], PushLens=[1], Fams=["opts", "grow"], OptFlags=ALLFL,
-                             depth=3 if q else 4, walks=300 if q else 3000, wlen=40)),
+                             depth=3 if q else 4, walks=300 if q else 20000, wlen=40)),
               ("settings", dict(Kinds=["AND", "LIST", "BASIC"], MaxLen=0, Fams=["settings", "opts"], OptFlags=["fold", "ronly"],
-                                depth=2, walks=300 if q else 3000, wlen=40))]
+                                depth=2, walks=300 if q else 20000, wlen=40))]
     tables.append(("cond-loglevel", dict(machine="cond", KwArgs=["k"], OpArgs=["Eq"], ExArgs=["s:v"], CFams=["loglevel", "opts"], COptFlags=["ronly"],
-                                         depth=2, walks=200 if q else 2000)))
+                                         depth=2, walks=200 if q else 10000)))
     tables.append(("cond-flags", dict(machine="cond", KwArgs=["k"], OpArgs=["Eq"], ExArgs=["s:v"], CFams=["opts", "settings", "set"],
-                                      depth=3 if q else 4, walks=300 if q else 3000)))
-    tables.append(("auxlog", dict(Kinds=["AND", "BASIC"], MaxLen=0, Fams=["aux", "opts"], OptFlags=["ronly"], depth=2 if q else 3, walks=200 if q else 2000, wlen=40)))
-    tables.append(("loglevel", dict(Kinds=["AND"], MaxLen=0, Fams=["loglevel", "opts"], OptFlags=["ronly"], depth=2 if q else 3, walks=300 if q else 3000, wlen=40)))
+                                      depth=3 if q else 4, walks=300 if q else 20000)))
+    tables.append(("auxlog", dict(Kinds=["AND", "BASIC"], MaxLen=0, Fams=["aux", "opts"], OptFlags=["ronly"], depth=2 if q else 3, walks=200 if q else 10000, wlen=40)))
+    tables.append(("loglevel", dict(Kinds=["AND"], MaxLen=0, Fams=["loglevel", "opts"], OptFlags=["ronly"], depth=2 if q else 3, walks=300 if q else 20000, wlen=40)))
     traces = [("rand", dict(traces=200 if q else 2000, len=80, fams=["opts", "settings", "list", "loglevel", "aux"], nvals=4))]
     return sm_check(work, v, "C18", tier, tables, traces, C18_FIELDS,
                     ["StepProps: OptIndependence (a switch changes exactly its own flag, nothing else; on / off / toggle semantics)",
@@ -672,11 +681,11 @@ def c18(work, v, tier):
 def c06(work, v, tier):
     q = tier == "quick"
     full_ops = ["Eq", "Ne", "Lt", "Gt", "Le", "Ge", "op0", "op9", "user", "emptytext", "emptyctx", "nil"]
-    tables = [("cond", dict(machine="cond", depth=2, walks=400 if q else 4000, wlen=40)),
+    tables = [("cond", dict(machine="cond", depth=2, walks=400 if q else 20000, wlen=40)),
               ("cond-closures", dict(machine="cond", KwArgs=["k", ""], OpArgs=["Eq", "nil"], ExArgs=["nil", "s:v", "S"],
-                                     CFams=["set", "closures", "life"], COptFlags=[], depth=2, walks=200 if q else 2000)),
+                                     CFams=["set", "closures", "life"], COptFlags=[], depth=2, walks=200 if q else 10000)),
               ("cond-enc", dict(machine="cond", KwArgs=["k"], OpArgs=["Ge"], ExArgs=["s:v", "i:5", "C"], CFams=["set", "settings", "opts"],
-                                COptFlags=["paren", "nspad"], depth=2, walks=200 if q else 2000))]
+                                COptFlags=["paren", "nspad"], depth=2, walks=200 if q else 10000))]
     if not q:
         tables.append(("cond-full", dict(machine="cond", OpArgs=full_ops, KwArgs=["k", "kw2", "", "stringer", "nil", "int"],
                                          ExArgs=["nil", "s:v", "s:w x", "s:", "i:5", "b:t", "S", "A", "P", "C", "str"], depth=3, walks=4000, wlen=60)))
@@ -705,7 +714,7 @@ def c02(work, v, tier):
                     "code -> spec: random trees of depth <= 3-4 with independent random configuration on every node, arbitrary token mixes and alias "
                     "forms are rendered by the real code and accepted line by line by Check_Render.tla",
                     gens=[dict(module="Gen_Render", family=f, fn="render") for f in fams],
-                    rands=[dict(module="Check_Render", fn="render", n=4000 if q else 40000, depth=3 if q else 4)])
+                    rands=[dict(module="Check_Render", fn="render", n=4000 if q else 300000, depth=3 if q else 4)])
 
 
 @check("C07")
@@ -721,7 +730,7 @@ def c07(work, v, tier):
                     "negative / forward index options, alias and pointer forms, Conditions with leaf / Stack expressions) x ALL index paths of length "
                     "0..3 (quick) / 0..5 (thorough) over -1..width+1; the value returned by the real Traverse is mapped back to a structural address by object "
                     "identity and compared. code -> spec: random deeper / wider trees (Condition-in-Condition chains included) with random paths validated by Check_Traverse.tla",
-                    gens=gens, rands=[dict(module="Check_Traverse", fn="traverse", n=1500 if q else 15000, depth=3 if q else 4)])
+                    gens=gens, rands=[dict(module="Check_Traverse", fn="traverse", n=1500 if q else 100000, depth=3 if q else 4)])
 
 
 @check("C19")
@@ -740,7 +749,7 @@ def c19(work, v, tier):
                     "known to be wrong for almost every input with a gap (open finding; an existing test pins one wrong outcome): an outcome that equals "
                     "DefragAsBuilt - a transcription of defrag/implode/verifyImplode - on such an input is reported as KNOWN-FINDING, any other deviation "
                     "is a VIOLATION. Random longer patterns with nested pattern stacks are classified the same way by Check_Defrag.tla",
-                    gens=gens, rands=[dict(module="Check_Defrag", fn="defrag", n=3000 if q else 30000, depth=2)])
+                    gens=gens, rands=[dict(module="Check_Defrag", fn="defrag", n=3000 if q else 200000, depth=2)])
 
 
 @check("C20")
@@ -754,7 +763,7 @@ def c20(work, v, tier):
                     "for every member and emits the set; the real Reveal (run under a deadlock watchdog, mutex-enabled nodes included) must produce a member. "
                     "Families: chains of up to three single-child levels with every kind / parenthetical / mutex / fold / symbol mix over six bottoms, at the first and at "
                     "a later position of the parent; pairs of wrappers and Conditions holding wrappers; alias forms. Random trees of depth <= 4 are checked by Check_Reveal.tla",
-                    gens=gens, rands=[dict(module="Check_Reveal", fn="reveal", n=3000 if q else 30000, depth=3 if q else 4)])
+                    gens=gens, rands=[dict(module="Check_Reveal", fn="reveal", n=3000 if q else 200000, depth=3 if q else 4)])
 
 
 @check("C04")
@@ -769,7 +778,7 @@ def c04(work, v, tier):
                     "equal Struct(t); the second Unmarshal must be deeply equal (labels case-insensitively) and IsEqual must succeed both ways when no fold is involved. "
                     "Random deeper trees are validated by Check_Codec.tla",
                     gens=[dict(module="Gen_Codec", family=f, fn="codec") for f in fams],
-                    rands=[dict(module="Check_Codec", fn="codec", n=3000 if q else 30000, depth=3 if q else 4)])
+                    rands=[dict(module="Check_Codec", fn="codec", n=3000 if q else 200000, depth=3 if q else 4)])
 
 
 @check("C16")
@@ -783,7 +792,7 @@ def c16(work, v, tier):
                     "nested envelopes) x both call forms x zero and initialised receivers; no panic, 'error or initialised receiver', String / Unmarshal / IsEqual usable "
                     "afterwards; for well-formed input the decoded structure and the gained element are compared exactly",
                     gens=[dict(module="Gen_Codec", family=f, fn="codec") for f in ["c16flat", "c16nest"]],
-                    rands=[dict(module="Check_Codec", fn="codec", n=3000 if q else 30000, depth=3 if q else 4, salt=5)])
+                    rands=[dict(module="Check_Codec", fn="codec", n=3000 if q else 200000, depth=3 if q else 4, salt=5)])
 
 
 @check("C05")
@@ -799,18 +808,18 @@ def c05(work, v, tier):
                     "unexported field between exported ones; as a Stack element, as a Condition expression and nested (alias / pointer forms). No panic allowed. "
                     "Random pairs with random mutations are validated by Check_Equal.tla",
                     gens=[dict(module="Gen_Equal", family=f, fn="equal") for f in ["flat", "incond", "nested"]],
-                    rands=[dict(module="Check_Equal", fn="equal", n=4000 if q else 40000, depth=2 if q else 3)])
+                    rands=[dict(module="Check_Equal", fn="equal", n=4000 if q else 300000, depth=2 if q else 3)])
 
 
 @check("C12")
 def c12(work, v, tier):
     q = tier == "quick"
     tables = [("nest-alias", dict(Caps=[0], Kinds=["AND", "LIST"], Vals=["a", "S", "A", "P"], MaxLen=2, InitOpts=[[], ["nnest"]], Fams=["grow", "opts"],
-                                  OptFlags=["nnest"], PushLens=[1, 2], depth=2, walks=200 if q else 2000, wlen=30, fields=C13_FIELDS)),
+                                  OptFlags=["nnest"], PushLens=[1, 2], depth=2, walks=200 if q else 10000, wlen=30, fields=C13_FIELDS)),
               ("xfer-forms", dict(Caps=[0], Vals=["nil", "a"], MaxLen=2, Fams=["grow", "transfer"], PushLens=[1], DstCaps=[0, 2], DstOps=["push"],
-                                  depth=2, walks=200 if q else 2000, wlen=30, fields=C15_FIELDS)),
+                                  depth=2, walks=200 if q else 10000, wlen=30, fields=C15_FIELDS)),
               ("cond-alias", dict(machine="cond", KwArgs=["k"], OpArgs=["Eq"], ExArgs=["nil", "s:v", "S", "A", "P", "C"], CFams=["set", "opts"],
-                                  COptFlags=["nnest"], depth=3, walks=200 if q else 2000))]
+                                  COptFlags=["nnest"], depth=3, walks=200 if q else 10000))]
     gens = [dict(module="Gen_Render", family="alias", fn="render"),
             dict(module="Gen_Equal", family="nested", fn="equal"),
             dict(module="Gen_Codec", family="c04fold", fn="codec"),
@@ -926,10 +935,10 @@ def c10(work, v, tier):
     harness = lib.build_harness(work)
     acc = dict(states=0, transitions=0, generated=0, traces=0, evaluations=0, trace_events=0, instances=[], tv=[], samples=[])
     insts = [("g2x1", dict(G=2, OpsPer=1, Lens="{0, 1, 2, 3}", Caps="{0, 2}", FAMILY="core"), 0),
-             ("g2x2", dict(G=2, OpsPer=2, Lens="{1, 2}" if not q else "{1}", Caps="{0, 3}", FAMILY="poppush"), 6000 if q else 0),
-             ("g3x1", dict(G=3, OpsPer=1, Lens="{0, 1, 2}" if not q else "{1}", Caps="{0, 2}", FAMILY="mini3"), 6000 if q else 0)]
+             ("g2x2", dict(G=2, OpsPer=2, Lens="{1, 2}" if not q else "{1}", Caps="{0, 3}", FAMILY="poppush"), 20000 if q else 0),
+             ("g3x1", dict(G=3, OpsPer=1, Lens="{0, 1, 2}" if not q else "{1}", Caps="{0, 2}", FAMILY="mini3"), 20000 if q else 0)]
     if not q:
-        insts.append(("g2x2core", dict(G=2, OpsPer=2, Lens="{1}", Caps="{0}", FAMILY="core"), 60000))
+        insts.append(("g2x2core", dict(G=2, OpsPer=2, Lens="{1}", Caps="{0}", FAMILY="core"), 200000))
     for name, c, limit in insts:
         schedf = work.path("sched_%s.ndjson" % name)
         cfg = "\n".join(["SPECIFICATION Spec", "CONSTANTS"] + ["  %s = %s" % (k, ('"%s"' % val) if k == "FAMILY" else val) for k, val in c.items()] +
@@ -972,10 +981,42 @@ def c10(work, v, tier):
         else:
             h = lib.read_ndjson(histf, limit=40)[-1]
             acc["samples"].append(dict(kind="gated-schedule", schedule=h["sched"], history=[[dict(call=e["c"], ret=e["ret"]) for e in gg] for gg in h["hist"]], final=h["final"]))
+    # what an unlocked reader (the wrappers' own emptiness pre-check) sees DURING a critical section: Watch.tla
+    def watch(salt, name):
+        recf = work.path("watch_%s.ndjson" % name)
+        rc, out, wall = lib.run([harness, "watch", "-out", recf, "-rounds", str(3000 if q else 40000), "-seed", str(lib.seed() * 13 + salt)], timeout=3000)
+        if rc != 0:
+            raise Infra("watch driver failed: " + out[-1500:])
+        g = json.loads(out.strip().splitlines()[-1])
+        if g["samples"] < g["rounds"]:
+            raise Infra("the watch samplers attributed only %d samples to %d rounds" % (g["samples"], g["rounds"]))
+        result = work.path("watchres_%s.json" % name)
+        cfg = "\n".join(["SPECIFICATION Spec", "CONSTANTS", '  CASEFILE = "%s"' % recf, '  RESULT = "%s"' % result, "INVARIANT Done", "CHECK_DEADLOCK FALSE", ""])
+        res = lib.tlc(work, "watch_" + name, "Watch", cfg, workers=1, timeout=3000)
+        r = json.load(open(result))
+        if r["consumed"] != g["rounds"]:
+            raise Infra("Watch.tla consumed %s of %s records" % (r["consumed"], g["rounds"]))
+        acc["states"] += res["distinct"]; acc["traces"] += g["rounds"]; acc["evaluations"] += g["samples"]; acc["trace_events"] += g["rounds"]
+        acc["tv"].append(dict(name="watch-" + name, sequential_runs=g["rounds"], length_samples_attributed=g["samples"], rejected_by_Watch=len(r["bad"])))
+        if r["bad"]:
+            recs = lib.read_ndjson(recf)
+            for b in r["bad"][:3]:
+                rec = recs[b["line"] - 1]
+                k = len(rec["calls"])
+                x = dict(property="C10", kind="watch", record=rec, lens=[b["lens"][str(i)] if isinstance(b["lens"], dict) else b["lens"][i - 1] for i in range(1, k + 2)],
+                         rets=[b["rets"][str(i)] if isinstance(b["rets"], dict) else b["rets"][i - 1] for i in range(1, k + 1)], final=b["final"],
+                         detail=["record %d rejected by Watch.tla at call(s) %s: lengths sampled by an unlocked reader %s, specified lengths %s, calls %s" %
+                                 (b["line"], b["calls"], rec["seen"], b["lens"], json.dumps(rec["calls"])[:300])],
+                         **{"class": "C10/watch/transient-or-sequential"})
+                triage(v, findings, "C10", harness, x, None)
+        else:
+            rec = lib.read_ndjson(recf, limit=5)[-1]
+            acc["samples"].append(dict(kind="watch-record", calls=rec["calls"], lengths_seen_during_each_call=rec["seen"], final=rec["final"]))
+    watch(0, "a")
     # free-running goroutines under the race detector
     def stress(seed_salt, name):
         histf, g, viol = race_stage(work, v, findings, "C10", acc, "mutators",
-                                    ["stress", "-rounds", str(300 if q else 4000), "-g", "6", "-ops", "4", "-seed", str(lib.seed() * 31 + seed_salt)], name)
+                                    ["stress", "-rounds", str(400 if q else 4000), "-g", "5", "-ops", "3", "-seed", str(lib.seed() * 31 + seed_salt)], name)
         r, lres = lin_stage(work, acc, histf, name)
         acc["traces"] += g["rounds"]; acc["evaluations"] += g["rounds"]
         acc["tv"].append(dict(name="stress-" + name, rounds=g["rounds"], flagged=g["flagged"], rejected_by_LinTrace=len(r["rejected"])))
@@ -1000,12 +1041,14 @@ def c10(work, v, tier):
                  rule="distinct = distinct (initial state, program, schedule) triples enumerated by TLC from Concurrent.tla; each executed schedule is forced on real goroutines "
                       "through the lock hook and its history judged by LinTrace.tla; plus free-running rounds in a -race build",
                  exhaustive=q is False, tlc_generated_states=acc["generated"], bounded_instances=acc["instances"], trace_validation=acc["tv"],
-                 checker_cmd="tlc Concurrent.tla ; harness gated ; tlc LinTrace.tla ; harness(-race) stress ; tlc RaceClass.tla",
+                 checker_cmd="tlc Concurrent.tla ; harness gated ; tlc LinTrace.tla ; harness watch ; tlc Watch.tla ; harness(-race) stress ; tlc RaceClass.tla",
                  design_properties_checked_by_tlc=["Linearizable (every terminal state of every schedule is explained by a sequential execution in program order)",
                                                    "CapRespected", "OnlyUserValues (the configuration is never an element)"],
                  explanation="all interleavings at lock-acquisition granularity of 2-3 goroutines x 1-2 mutators on a shared mutex-enabled stack of length 0..3, LIFO and FIFO, with and "
                              "without capacity, enumerated by TLC and executed deterministically on real goroutines (a goroutine parks before each call and before mutex.Lock()); "
                              "per segment the driver also checks that content changes only between lock.held and lock.release and that the lock bookkeeping is written under the lock; "
+                             "sequential runs with sampler goroutines reading Len() throughout, judged by Watch.tla (no critical section shows the stack shorter or longer than both its ends: "
+                             "the wrappers decide emptiness before they lock); "
                              "free-running rounds on 16 cores in a -race build, histories judged by LinTrace.tla, race reports classified by RaceClass.tla")
     v.assumptions = ["interleavings are enumerated at lock-acquisition + call-boundary granularity (the property's own quantifier); instruction-level races are left to the race detector",
                      "the race-detector part is timing dependent: it can add findings, its silence proves nothing",
